@@ -421,6 +421,10 @@ impl Configuration {
         mut_region_dispatch!(self, process_join_accept, c_f_list)
     }
 
+    pub(crate) fn forget_downlink_frequencies(&mut self) {
+        mut_region_dispatch!(self, forget_downlink_frequencies)
+    }
+
     pub(crate) fn channel_mask_get(&self) -> ChannelMask<9> {
         region_dispatch!(self, channel_mask_get)
     }
@@ -531,6 +535,10 @@ from_region!(US915);
 
 pub(crate) trait RegionHandler {
     fn process_join_accept(&mut self, c_f_list: Option<&CfList>);
+
+    /// Returns every channel to the downlink (RX1) frequency the region pairs it with, dropping
+    /// what DlChannelReq commands changed. Nothing to do where the plan fixes the pairing.
+    fn forget_downlink_frequencies(&mut self) {}
 
     fn channel_mask_get(&self) -> ChannelMask<9>;
     fn channel_mask_set(&mut self, channel_mask: ChannelMask<9>);
